@@ -93,8 +93,14 @@ def history(ctx, k, restrict=False):
         compiled_since_change = {}
         stale = False
         for step in range(k):
-            op = OPS[ctx.choice('op_%d' % step, len(OPS) if not restrict else 9)]
-            tgt = PARAMS[ctx.choice('target_%d' % step, len(PARAMS))]
+            if restrict:
+                # length-3 histories over the operations that interact (fit flags, bounds, mode, user prior, compile)
+                # and two model parameters
+                op = ['enable_fit', 'disable_fit', 'set_boundary', 'set_mode_log', 'set_prior_loguniform', 'compile_params'][ctx.choice('op_%d' % step, 6)]
+                tgt = ['a', 'b'][ctx.choice('target_%d' % step, 2)]
+            else:
+                op = OPS[ctx.choice('op_%d' % step, len(OPS))]
+                tgt = PARAMS[ctx.choice('target_%d' % step, len(PARAMS))]
             x1 = ctx.real('arg1_%d' % step, gt=0, hint=(0.5, 4))
             x2 = ctx.real('arg2_%d' % step, gt=0, hint=(0.5, 4))
             ctx.assume(ctx.ne(x1, x2))
